@@ -412,6 +412,42 @@ def alias_case(root, bindir, cwd_rel, s1, s2, j, cmd):
     return out
 
 
+def alias_contended_case(root, bindir, cwd_rel, sps, j):
+    """another invocation is inside the script of the target when `redo <spellings>` arrives: the waiting command
+    must build the target once more (it is forced), not once per spelling"""
+    shutil.rmtree(root, ignore_errors=True)
+    p = os.path.join(root, 'p')
+    os.makedirs(os.path.join(p, 'sub', 'deep'))
+    os.makedirs(os.path.join(p, '.redo'))
+    os.symlink('sub', os.path.join(p, 'sym'))
+    with open(os.path.join(p, 'sub', 't.do'), 'w') as f:
+        f.write('echo run >> "%s"\nsleep 0.4\necho content\n' % os.path.join(root, 'count'))
+    env = clean_env(bindir)
+    bg = subprocess.Popen(['redo', 'sub/t'], cwd=p, env=env, stdin=subprocess.DEVNULL, stdout=subprocess.DEVNULL, stderr=subprocess.DEVNULL)
+    # wait until the first script runs
+    t0 = time.time()
+    while not os.path.exists(os.path.join(root, 'count')) and time.time() - t0 < 10:
+        time.sleep(0.01)
+    argv = ['redo'] + (['-j%d' % j] if j > 1 else []) + [x.replace('@P@', p) for x in sps]
+    try:
+        r = subprocess.run(argv, cwd=os.path.join(p, cwd_rel), env=env, stdout=subprocess.PIPE, stderr=subprocess.PIPE, text=True, timeout=60)
+        rc, se = r.returncode, r.stderr
+    except subprocess.TimeoutExpired:
+        rc, se = 'timeout', ''
+    bg.wait()
+    runs = len(open(os.path.join(root, 'count')).read().split())
+    probs = []
+    if rc != 0:
+        i = se.find('panicked')
+        probs.append('exit %s: %s' % (rc, se[i:i + 160].replace('\n', ' ') if i >= 0 else se[-200:].replace('\n', ' | ')))
+    if runs != 2:
+        probs.append('the script ran %d times (once by the other invocation, once by this forced one expected)' % runs)
+    out = {'cwd': cwd_rel or '.', 'argv': argv, 'problems': probs, 'contended': True}
+    if not probs:
+        shutil.rmtree(root, ignore_errors=True)
+    return out
+
+
 def alias_part(tier, d, verdict, bindir):
     rnd = random.Random(common.seed() + 15)
     cases = []
@@ -436,4 +472,15 @@ def alias_part(tier, d, verdict, bindir):
         for r in ex.map(lambda ic: alias_case(os.path.join(wd, 'a%04d' % ic[0]), bindir, *ic[1]), list(enumerate(cases))):
             if r['problems']:
                 bad.append(r)
-    return {'alias_command_lines': len(cases), 'alias_failures': len(bad)}, bad
+    # the same with the target locked by another invocation when the command arrives
+    cont = []
+    for cwd_rel in ('', 'sub', 'sub/deep'):
+        sp = spellings('@P@', cwd_rel)
+        for k in range(6 if tier == 'quick' else 30):
+            sps = rnd.sample(sp, rnd.choice([2, 3]))
+            cont.append((cwd_rel, sps, rnd.choice([1, 2])))
+    with ThreadPoolExecutor(6) as ex:
+        for r in ex.map(lambda ic: alias_contended_case(os.path.join(wd, 'c%04d' % ic[0]), bindir, *ic[1]), list(enumerate(cont))):
+            if r['problems']:
+                bad.append(r)
+    return {'alias_command_lines': len(cases), 'alias_contended_command_lines': len(cont), 'alias_failures': len(bad)}, bad
